@@ -141,6 +141,25 @@ class Run:
         return 1 if unknown else 0
 
 
+import contextlib
+
+
+@contextlib.contextmanager
+def worker_pool(ctx, procs, **kw):
+    """a multiprocessing pool whose workers EXIT (close + join) when everything went well, instead of being killed
+    (Pool.__exit__ terminates): workers that end normally also let measuring tools write what they collected"""
+    pool = ctx.Pool(procs, **kw)
+    try:
+        yield pool
+    except BaseException:
+        pool.terminate()
+        pool.join()
+        raise
+    else:
+        pool.close()
+        pool.join()
+
+
 def die_machinery(msg):
     print(f"MACHINERY-FAILURE: {msg}", file=sys.stderr)
     sys.exit(2)
